@@ -880,6 +880,14 @@ func (ex *Exec) instr(ins ssa.Instruction) {
 			ex.doCall(nil, &d.Call, d.Pos())
 		}
 	case *ssa.ChangeType:
+		if _, isTP := types.Unalias(ex.typ(i.X.Type())).(*types.TypeParam); isTP {
+			if _, isIface := ex.typ(i.Type()).Underlying().(*types.Interface); isIface {
+				// any(v) for v of type-parameter type: the dynamic value is boxed like any other value
+				fn, _ := ex.boxFn(i.X.Type())
+				ex.bind(i, sApp(fn, ex.val(i.X).T))
+				break
+			}
+		}
 		ex.vals[i] = ex.val(i.X)
 	case *ssa.Convert:
 		ex.doConvert(i)
@@ -931,8 +939,7 @@ func (ex *Exec) instr(ins ssa.Instruction) {
 	case *ssa.Send:
 		ex.doSend(i)
 	case *ssa.Select:
-		ex.vc.errorf("select is outside the supported subset (%s)", ex.vc.w.pos(i.Pos()))
-		ex.vals[i] = Val{T: "0"}
+		ex.doSelect(i)
 	case *ssa.Jump, *ssa.If:
 	case *ssa.Return:
 		var vs []Val
